@@ -162,6 +162,10 @@ func (en *Engine) CancelPoint(n, q int, site, load string, early bool) {
 	if en.Skip(fam, name) {
 		return
 	}
+	if !en.Caps.Can(site, load, early) {
+		en.skippedCtl[site+"/"+load]++ // the code does not consult its context there (or not in a way the gate can see)
+		return
+	}
 	r := en.New(fam, name, n, q)
 	defer en.Finish(fam, r)
 	label := site + "/" + load
@@ -182,7 +186,7 @@ func (en *Engine) CancelPoint(n, q int, site, load string, early bool) {
 			WaitUntil(250*time.Millisecond, func() bool { return r.G.Parked("W1") == n })
 		} else if !early {
 			// let the goroutines reach their blocking selects so that the startup calls are not the ones parked
-			WaitUntil(250*time.Millisecond, func() bool { h := r.G.Hits(); return h["Q0"] >= n && h["W1"] >= n })
+			idle(r)
 		}
 	case "pinned":
 		pins, ok = en.PinAll(r, func(i int) int { return i % n })
@@ -228,7 +232,7 @@ func (en *Engine) CancelPoint(n, q int, site, load string, early bool) {
 		t := r.NewTask(false, 0, false)
 		r.PushAsync(t, k)
 		parked = en.waitParked(r, site, label)
-		if parked && site == "Q1" && load == "idle" && en.ST.Expected() {
+		if parked && site == "Q1" && load == "idle" && en.Caps.Q1 {
 			// the queue goroutine holds exactly one counted task, nothing else is pending
 			if p, _ := r.Status(); p != 1 {
 				r.Violation("pending-exact: queue goroutine parked after take+count with one task, PendingTask=%d", p)
@@ -509,7 +513,7 @@ func (en *Engine) CancelInsidePush(n, q, c int, gated bool) {
 	r := en.New(fam, name, n, q)
 	defer en.Finish(fam, r)
 	r.Start(longTimeout)
-	WaitUntil(100*time.Millisecond, func() bool { h := r.G.Hits(); return h["Q0"] >= n && h["W1"] >= n })
+	idle(r)
 	t := r.NewTask(gated, 0, false)
 	calls, fired := 0, false
 	r.G.SetHook(func(key string) {
@@ -530,6 +534,8 @@ func (en *Engine) CancelInsidePush(n, q, c int, gated bool) {
 	r.G.SetHook(nil)
 	if fired {
 		en.reached["pushhook/call"+string(rune('0'+c))]++
+	} else if c >= 1 && !en.Caps.P1any {
+		en.skippedCtl["pushhook/call"+string(rune('0'+c))]++ // PushTask consults the context once on a lane with room
 	} else {
 		en.unreached["pushhook/call"+string(rune('0'+c))]++
 	}
@@ -538,12 +544,15 @@ func (en *Engine) CancelInsidePush(n, q, c int, gated bool) {
 
 // ---------------------------------------------------------------- C06/C07: cancel when everything is idle after work was done
 
+// workerEntry is the entry function of the worker goroutines as discovered by the calibration run.
+var workerEntry string
+
 func workersBlockedInSelect() int {
 	buf := make([]byte, 1<<20)
 	buf = buf[:runtime.Stack(buf, true)]
 	c := 0
 	for _, g := range strings.Split(string(buf), "\n\n") {
-		if strings.Contains(g, "glb/tasklane.") && strings.Contains(g, "startWorker") {
+		if workerEntry != "" && strings.Contains(g, workerEntry+"(") {
 			if i := strings.Index(g, "["); i >= 0 && strings.HasPrefix(g[i:], "[select") {
 				c++
 			}
@@ -867,13 +876,18 @@ func (en *Engine) PendingBlockedProducer(n, q int) {
 	if last, ok := r.PendingSettles(want, LiveBound); !ok {
 		r.Violation("pending-exact: workers pinned, %d accepted tasks not started, PendingTask=%d", want, last)
 	}
+	if !en.Caps.P1full {
+		en.skippedCtl["pendingblocked"]++
+	}
 	h0 := r.G.Hits()["P1"]
 	var blocked []*PushCall
 	for l := 0; l < n; l++ {
 		blocked = append(blocked, r.PushAsync(r.NewTask(false, 0, false), l))
 	}
-	entered := WaitUntil(250*time.Millisecond, func() bool { return r.G.Hits()["P1"] >= h0+n })
-	if entered {
+	entered := en.Caps.P1full && WaitUntil(250*time.Millisecond, func() bool { return r.G.Hits()["P1"] >= h0+n })
+	if !en.Caps.P1full {
+		time.Sleep(3 * time.Millisecond)
+	} else if entered {
 		en.reached["pendingblocked/producers-in-select"]++
 	} else {
 		en.unreached["pendingblocked/producers-in-select"]++
